@@ -515,7 +515,18 @@ def make_fakes(sched, real_process_line, real_thread_line):
                 rw[wait_key] = wait_ev
                 sched.keys[wait_key._n] = w
 
+            # phase 5: the process dies before `run` is entered (what a missing `__main__` guard does to EVERY spawned child: exit code 1);
+            # `sched.kill_spawn` = ordinals (per scheduler) of the process starts that die this way
+            ordinal = getattr(sched, "nstarts", 0)
+            sched.nstarts = ordinal + 1
+            dies_at_start = ordinal in getattr(sched, "kill_spawn", ())
+
             def body():
+                if dies_at_start:
+                    self._alive = False
+                    self.exitcode = 1
+                    sched.act("wKilled", w=w, spawned=1)      # model action `wCrash w` from the W state `spawned`
+                    return
                 sched.act("wBegin", w=w)
                 try:
                     real_process_line.run(child)       # REAL code: line.run() + exception capture + send
@@ -539,6 +550,17 @@ def make_fakes(sched, real_process_line, real_thread_line):
                 if wait_ev is not None:
                     # read_wait (what MyProcessLine.run does after the line ended): write the key, wait for the caller
                     child._line[-1].write([pickle.loads(pickle.dumps(wait_key))])
+                    # phase 5 (crash × read_wait): `sched.kill_wait` = ordinals of the waiting processes that die while they wait; the scheduler
+                    # chooses the moment (one more yield point); if the caller has read the key by then the process just exits
+                    nwait = getattr(sched, "nwaits", 0)
+                    sched.nwaits = nwait + 1
+                    if nwait in getattr(sched, "kill_wait", ()):
+                        sched.yield_point(lambda: True)
+                        if not wait_ev.flag:
+                            self._alive = False
+                            self.exitcode = -9
+                            sched.act("wKilledKey", w=w)      # model action `wCrashKey w`
+                            return
                     wait_ev.wait()
                     self._alive = False
                     self.exitcode = 0
